@@ -253,6 +253,10 @@ func init() {
 				add(l)
 			}
 		}
+		uf := jobBase("none-att1-status-flaps-after-finish")
+		uf.PodActions = []string{"run", "succeed", "fail", "unfinish"}
+		uf.MaxFlap = 1
+		add(uf)
 		lf := jobBase("none-att2-pendingtimeout-latefinish")
 		lf.MaxAttempts, lf.MaxFail = 2, 1
 		lf.PendingTimeoutJob = i64(30)
